@@ -293,6 +293,25 @@ class Session:
             if op.get("data_id") is not None:
                 kw["data_id"] = op["data_id"]
             call = lambda: getattr(self.bind[op["node"]], op["which"])(data, **kw)
+        elif k == "addnode" and op.get("via") in ("append_sibling", "prepend_sibling", "append_child", "prepend_child"):
+            # the shortcut routes with an existing node as source (a copy is placed relative to a sibling / at either end)
+            src = m.find(op["src"])
+            via = op["via"]
+            if via.endswith("sibling"):
+                sibM = m.find(op["sib"])
+                P_ = m.parent_of(sibM)
+                K = m.kids(P_)
+                i = next(j for j, c in enumerate(K) if c is sibM)
+                bm = ("node", sibM) if via == "prepend_sibling" else (("node", K[i + 1]) if i + 1 < len(K) else None)
+                recv = self.bind[op["sib"]]
+            else:
+                P_ = self.mnode(op["parent"])
+                bm = None if via == "append_child" else True
+                recv = self.real(op["parent"])
+            if op.get("node_id") is not None:
+                kw["node_id"] = op["node_id"]
+            outcome = m.add_node(P_, src, bool(op.get("deep")), bm, None, node_id=op.get("node_id"))
+            call = lambda: getattr(recv, via)(self.bind[op["src"]], deep=op.get("deep"), **kw)
         elif k == "addnode":
             P_ = self.mnode(op["parent"])
             src = m.find(op["src"])
@@ -717,7 +736,7 @@ class Session:
                 return f"#{uid}(?)"
 
         d = dict(op)
-        for k in ("parent", "node", "target", "src"):
+        for k in ("parent", "node", "target", "src", "sib"):
             if k in d:
                 d[k] = lab(d[k])
         if isinstance(d.get("before"), (tuple, list)) and d["before"][0] == "node":
@@ -839,6 +858,18 @@ def _gen_kind(s, rng, k, nodes, hostile, allow_unspec):
             # the kind-less routes (add(node) without kind=, copy_to) are a listed C07 finding
             op["via"] = "add"
             op["kind"] = rng.choice([src.kind, src.kind, "kc"])
+        elif rng.random() < 0.25:
+            # shortcut routes with a node as source
+            via = rng.choice(["append_sibling", "prepend_sibling", "append_child", "prepend_child"])
+            if via.endswith("sibling"):
+                sib = rng.choice(nodes)
+                if deep and m.inside(m.parent_of(sib), src) and not (hostile and allow_unspec):
+                    return None
+                op = {"op": "addnode", "via": via, "sib": sib.uid, "src": src.uid, "deep": deep}
+            elif p != ROOT:
+                op = {"op": "addnode", "via": via, "parent": p, "src": src.uid, "deep": deep}
+            if rng.random() < 0.15 and not deep:
+                op["node_id"] = rng.randrange(10**6, 10**7)
         return op
     if k == "copy_children":
         if not nodes or s.typed:
